@@ -3,8 +3,10 @@
 mod common;
 mod concdrv;
 mod dirdrv;
+mod forge;
 mod hookdb;
 mod labeldrv;
+mod markdrv;
 mod refhash;
 mod stordrv;
 mod triedrv;
@@ -19,6 +21,8 @@ fn main() {
         "labels" => labeldrv::main_labels(&args[2..]),
         "storage" => stordrv::main_storage(&args[2..]),
         "conc" => concdrv::main_conc(&args[2..]),
+        "markers" => markdrv::main_markers(&args[2..]),
+        "forge" => forge::main_forge(&args[2..]),
         other => {
             eprintln!("unknown subcommand {other:?}");
             std::process::exit(2);
